@@ -13,7 +13,9 @@ STUB_ATTR = {
     # S2: format!() on panic / println paths -> empty String
     "S2": "#[kani::stub(std::fmt::format, crate::stubs::fmt_format)]",
 }
+STUB_ATTR["S4"] = "#[kani::stub(core::fmt::Formatter::pad, crate::stubs::fmt_pad)]"
 STUB_TEXT = {
+    "S4": "core::fmt::Formatter::pad(s) replaced by write_str(s) (exact for '{}' without width/precision)",
     "S1": "Vec::with_capacity(c) replaced by Vec::new()+reserve_exact(8) (capacity unobservable)",
     "S2": "alloc::fmt::format replaced by an empty String (panic/println message text is not the subject)",
 }
@@ -278,9 +280,71 @@ def dnastring_harnesses():
     return hs
 
 
+def slice_harnesses():
+    hs = []
+    ST = "every INV_S string with %d blocks x every slice record (start,length,is_rc) with start+length<=len"
+    for b in (1, 2, 3):
+        hs.append(H("c15_read__b%d" % b, ["C15", "C12"], "crate::slice_ops::read::<%d>()" % b, unwind=8 * b + 10, cap=300,
+                    funcs=["DnaStringSlice::get", "DnaStringSlice::len", "DnaStringSlice::is_empty", "Mer::iter", "IntoIterator::into_iter", "complement"],
+                    bounds=ST % b + ", all positions"))
+        hs.append(H("c15_subslice__b%d" % b, ["C15", "C12"], "crate::slice_ops::subslice::<%d>()" % b, unwind=8 * b + 10, cap=300,
+                    funcs=["DnaStringSlice::slice", "DnaStringSlice::rc"],
+                    bounds=ST % b + ", all (a,b) with a<=b<=length"))
+    for b in (1, 2):
+        hs.append(H("c15_ctor__b%d" % b, ["C15"], "crate::slice_ops::ctor::<%d>()" % b, unwind=8 * b + 10, cap=300,
+                    funcs=["DnaString::prefix", "DnaString::suffix", "DnaString::slice"],
+                    bounds="every INV_S string with %d blocks, all k<=len, all a<=b<=len" % b))
+    hs.append(H("c15_eq__b1_l6", ["C15"], "crate::slice_ops::eq::<1, 6>()", unwind=18, cap=300,
+                funcs=["PartialEq::eq (DnaStringSlice)"], bounds="two slices of one 1-block string, lengths <= 6, all offsets/orientations"))
+    hs.append(H("c15_eq__b2_l4", ["C15"], "crate::slice_ops::eq::<2, 4>()", unwind=26, cap=300,
+                funcs=["PartialEq::eq (DnaStringSlice)"], bounds="two slices of one 2-block string, lengths <= 4, all offsets/orientations"))
+    core = {"kmer4", "kmer16"}
+    for tag, ty, k, bits, _ in KT:
+        if tag == "kmer4v":
+            continue
+        b = 2 if k <= 32 else 3
+        hs.append(H("c13_slice_get_kmer__%s__b%d" % (tag, b), ["C13", "C15"],
+                    "crate::slice_ops::get_kmer::<%s, %d>()" % (ty, b), unwind=8 * b + 10, cap=900, mem=30 if b == 3 else 12,
+                    tier="quick" if tag in core else "thorough",
+                    funcs=["DnaStringSlice::get_kmer", "DnaString::get_kmer", "Mer::rc", "Vmer::first_kmer", "Vmer::last_kmer"],
+                    bounds="every string of %d bases x every slice record (start,length,is_rc) x every k-mer position" % (32 * b)))
+        hs.append(H("c12_slice_kmer_rc__%s__b%d" % (tag, b), ["C12", "C15"],
+                    "crate::slice_ops::get_kmer_rc_commute::<%s, %d>()" % (ty, b), unwind=8 * b + 10, cap=900,
+                    tier="quick" if tag in ("kmer4", "kmer32") else "thorough",
+                    funcs=["DnaStringSlice::get_kmer", "DnaStringSlice::rc", "Mer::rc"],
+                    bounds="every string of %d bases x every slice record x every k-mer position" % (32 * b)))
+    for n in (0, 1, 2, 3, 5):
+        hs.append(H("c15_render__len%d" % n, ["C15"], "crate::slice_ops::render::<2, %d>()" % n, unwind=26, cap=600, mem=24, stubs=["S1"], tier="quick" if n <= 3 else "thorough",
+                    funcs=["DnaStringSlice::bytes", "DnaStringSlice::ascii", "DnaStringSlice::to_dna_string", "DnaStringSlice::to_owned"],
+                    bounds="2-block string, every start and orientation, output length %d" % n))
+    for n in (1, 3):
+        hs.append(H("c15_display__len%d" % n, ["C15"], "crate::slice_ops::display::<%d>()" % n, unwind=18, cap=400,
+                    funcs=["Display::fmt (DnaStringSlice)"], bounds="1-block string, every start and orientation, slice length %d" % n))
+        hs.append(H("c15_debug__start%d_len%d" % (n - 1, n), ["C15"], "crate::slice_ops::debug::<%d, %d>()" % (n - 1, n), unwind=n + 6, cap=400, stubs=["S4"],
+                    funcs=["Debug::fmt (DnaStringSlice)"], bounds="8-base string (all contents), slice start %d length %d, both orientations" % (n - 1, n)))
+    for b, n in ((1, 0), (1, 1), (2, 2), (2, 5)):
+        hs.append(H("c15_hamming_small__b%d_len%d" % (b, n), ["C15"], "crate::slice_ops::hamming_small::<%d, %d>()" % (b, n), unwind=8 * b + n + 10,
+                    cap=600, funcs=["DnaStringSlice::hamming_dist"],
+                    bounds="two fully symbolic %d-block strings, every offset and orientation, slice length %d" % (b, n)))
+    for n in (31, 32, 33, 64, 65):
+        b = (n + 31) // 32
+        hs.append(H("c15_hamming_whole__len%d" % n, ["C15"], "crate::slice_ops::hamming_whole::<%d, %d>()" % (b, n), unwind=max(n, 8 * b) + 10,
+                    cap=900, tier="quick" if n <= 33 else "thorough",
+                    funcs=["DnaStringSlice::hamming_dist", "DnaStringSlice::get_kmer", "count_diff_2_bit_packed"],
+                    bounds="two fully symbolic strings of %d bases, whole-string slices, both orientations each" % n))
+    for n in (1023, 1024, 1025, 1056, 2047, 2048, 2049):
+        b = (n + 31) // 32
+        hs.append(H("c15_hamming_sparse__len%d" % n, ["C15"], "crate::slice_ops::hamming_sparse::<%d, %d>()" % (b, n), unwind=n + 10,
+                    cap=1200, mem=20, tier="quick" if n == 1024 else "thorough",
+                    funcs=["DnaStringSlice::hamming_dist", "DnaStringSlice::get_kmer"],
+                    bounds="length %d: first string fully symbolic, second differs from it at <= 2 symbolic positions holding symbolic bases; whole-string forward slices" % n))
+    return hs
+
+
 def all_harnesses():
     hs = []
     hs += kmer_harnesses()
+    hs += slice_harnesses()
     hs += dnastring_harnesses()
     hs += exts_harnesses()
     hs += lmer_harnesses()
